@@ -91,23 +91,27 @@ fn fwd(op: &Op, _ctx: &dyn Context, operands: &mut dyn CoordinateSet) -> usize {
 
         let cblon = (B * dlon).cos();
 
-        // Variant A
-        if !variant {
-            let u = A * (S * c0 + V * s0).atan2(cblon) / B;
-            let x = v * cc + u * sc + FE;
-            let y = u * cc - v * sc + FN;
-            operands.set_xy(i, x, y);
-            successes += 1;
+        // With atan2 (rather than the atan of Guidance Note 7-2), the general
+        // expression covers the special case alpha = 90 as well
+        let u = A * (S * c0 + V * s0).atan2(cblon) / B;
+
+        let (x, y) = if !variant {
+            // Variant A
+            (v * cc + u * sc + FE, u * cc - v * sc + FN)
+        } else {
+            // Variant B and/or Laborde
+            let u = u - uc.copysign(latc);
+            (v * cc + u * sc + Ec, u * cc - v * sc + Nc)
+        };
+
+        // The formulas break down at the north pole (t = 0, hence Q infinite), beyond
+        // the poles, and for infinite coordinates: Signal that no image was computed
+        // (while a NaN coordinate just propagates, as everywhere else)
+        if !(x.is_finite() && y.is_finite()) && !(lon.is_nan() || lat.is_nan()) {
+            operands.set_xy(i, f64::NAN, f64::NAN);
             continue;
         }
 
-        // Variant B and/or Laborde
-
-        // With atan2 (rather than the atan of Guidance Note 7-2), the general
-        // expression covers the special case alpha = 90 as well
-        let u = A * (S * c0 + V * s0).atan2(cblon) / B - uc.copysign(latc);
-        let x = v * cc + u * sc + Ec;
-        let y = u * cc - v * sc + Nc;
         operands.set_xy(i, x, y);
         successes += 1;
     }
@@ -209,6 +213,15 @@ fn inv(op: &Op, _ctx: &dyn Context, operands: &mut dyn CoordinateSet) -> usize {
 
         let lat = chi + es * (f[0] * s[0] + f[1] * s[1] + f[2] * s[2] + f[3] * s[3]);
         let lon = lambda_0 - (S * c0 - V * s0).atan2((B * u / A).cos()) / B;
+
+        // Plane coordinates which are the image of no point (|U| > 1), or too far
+        // away for the exponentials: Signal that no pre-image was computed
+        // (while a NaN coordinate just propagates, as everywhere else)
+        if !(lon.is_finite() && lat.is_finite()) && !(E.is_nan() || N.is_nan()) {
+            operands.set_xy(i, f64::NAN, f64::NAN);
+            continue;
+        }
+
         operands.set_xy(i, lon, lat);
         successes += 1;
     }
